@@ -313,7 +313,11 @@ impl FactorizedExpandChain {
                     }
 
                     if let Some(result) = expand.next_factorized()? {
-                        self.current_result = Some(result);
+                        // Without an expansion level there is no path at all: the
+                        // chain's result is empty, not the unexpanded source rows
+                        if result.level_count() > 1 {
+                            self.current_result = Some(result);
+                        }
                     }
                 }
             }
@@ -321,8 +325,13 @@ impl FactorizedExpandChain {
             // Expand the deepest level of the factorized result
             // This adds a new level without flattening - the key to memory savings
             if let Some(mut factorized) = self.current_result.take() {
+                let levels_before = factorized.level_count();
                 self.expand_deepest_level(&mut factorized, source_column, direction, edge_type)?;
-                self.current_result = Some(factorized);
+                // A hop that matched nothing ends every path: keep the result only if
+                // this expansion actually added a level
+                if factorized.level_count() > levels_before {
+                    self.current_result = Some(factorized);
+                }
             }
         }
 
